@@ -177,7 +177,19 @@ func (g *coreGen) boolExpr(vars []gvar, d int) string {
 	case 6:
 		return fmt.Sprintf("(%s != %s)", g.strExpr(vars, 0), g.strExpr(vars, 0))
 	default:
-		return fmt.Sprintf("(%s <= %s)", g.floatExpr(vars, d-1), g.floatExpr(vars, d-1))
+		l, r := g.floatExpr(vars, d-1), g.floatExpr(vars, d-1)
+		if g.r.chance(30) {
+			// NaN and the infinities (computed at run time from the global FZ = 0.0; never stored, so no
+			// implementation-defined float-to-int conversion can see them): every ordered comparison with NaN is false
+			sp := pick(g.r, []string{"(FZ / FZ)", "(1.0 / FZ)", "(-1.0 / FZ)"})
+			if g.r.chance(50) {
+				l = sp
+			} else {
+				r = sp
+			}
+			g.kinds["comparison with NaN or an infinity"]++
+		}
+		return fmt.Sprintf("(%s %s %s)", l, pick(g.r, []string{"<=", "<=", ">=", "<", ">", "==", "!="}), r)
 	}
 }
 
@@ -571,7 +583,7 @@ func genCoreProgram(r *rng, nf int) string {
 	sb.WriteString("func vsum(base int, xs ...int) int {\n\tfor _, x := range xs {\n\t\tbase += x\n\t}\n\treturn base\n}\n\n")
 	sb.WriteString("func fact(n int) int {\n\tif n <= 1 {\n\t\treturn 1\n\t}\n\treturn n * fact(n-1)\n}\n\n")
 	sb.WriteString("func divmod(a int, b int) (int, int) {\n\treturn a / (b*b + 1), a %% (b*b + 1)\n}\n\n")
-	sb.WriteString("var G int = 7\n\n")
+	sb.WriteString("var G int = 7\n\nvar FZ float64 = 0.0\n\n")
 	g.funcs = []fsig{{"vsum", []string{"int", "...int"}, []string{"int"}}, {"fact", []string{"int"}, []string{"int"}}, {"divmod", []string{"int", "int"}, []string{"int", "int"}}}
 	// fix the literal %% written through WriteString
 	s := strings.ReplaceAll(sb.String(), "%%", "%")
